@@ -855,16 +855,35 @@ class Array(Type):
 
     def _normalize_slice(self, slice_):
         start = slice_.start if slice_.start is not None else 0
-        stop = slice_.stop if slice_.stop is not None else self.get_size()
+        if slice_.stop is not None:
+            stop = slice_.stop
+        elif self.is_sized():
+            stop = self.array_len
+        else:
+            raise ValueError("Slices of unsized arrays need a stop index")
         step = slice_.step if slice_.step is not None else 1
-        start = self._normalize_idx(start)
-        stop = self._normalize_idx(stop)
+        start = self._normalize_bound(start)
+        stop = self._normalize_bound(stop)
         return slice(start, stop, step)
+
+    def _normalize_bound(self, idx):
+        """Same as _normalize_idx for a slice bound, which can be equal to the
+        array length"""
+        if not isinstance(idx, int_types):
+            raise ValueError("index must be an int or a long")
+        if self.is_sized():
+            if idx < 0:
+                idx = self.array_len + idx
+            if idx > self.array_len:
+                raise IndexError("Index %s out of bounds" % idx)
+        if idx < 0:
+            raise IndexError("Index %s out of bounds" % idx)
+        return idx
 
     def _check_bounds(self, idx):
         if not isinstance(idx, int_types):
             raise ValueError("index must be an int or a long")
-        if idx < 0 or (self.is_sized() and idx >= self.size):
+        if idx < 0 or (self.is_sized() and idx >= self.array_len):
             raise IndexError("Index %s out of bounds" % idx)
 
     def _get_pinned_base_class(self):
